@@ -10,6 +10,7 @@ import Driver.Engine
 import Driver.TxToScript
 import Driver.Store
 import Driver.Syntax
+import Driver.DryParam
 /-! registry of the areas the driver serves -/
 namespace Driver
 def areas : List (String × Handler) := [
@@ -24,6 +25,7 @@ def areas : List (String × Handler) := [
   ("enginetrace", EngineD.handle),
   ("txscript", TxToScriptD.handle),
   ("storeview", StoreD.handle),
-  ("nstext", SyntaxD.handle)
+  ("nstext", SyntaxD.handle),
+  ("dryparam", DryParamD.handle)
 ]
 end Driver
